@@ -116,9 +116,163 @@ def run(rep):
         "optimizers' dataflow.")
     rep.trusted = ["syn", "spec/asm_identities.txt, spec/isa.txt (written from fuel-asm / fuel-vm 0.66 sources)"]
     rule_r1(rep)
-    try:
-        from lib import isa
-    except ImportError:
-        isa = None
-    if isa:
-        isa.rules(rep, for_prop="C07")
+    rule_isa(rep)
+    rule_kill_discipline(rep)
+
+
+# ---- R2: ISA tables that asm DCE / move elimination / the propagators' reset-on-def rely on ---------------------------
+def rule_isa(rep):
+    from lib import isa
+    import C08
+    t = tab.tree(isa.VOPS)
+    vs = isa.variants(t)
+    spec = C08.load_isa()
+    T = {}
+    for name in ("use_registers", "def_registers", "has_side_effect"):
+        T[name] = isa.match_table(tab.fn(t, name, "VirtualOp"), vs)
+    for name in T:
+        rep.ob("R2-no-catch-all", f"VirtualOp::{name}", not T[name][1], isa.VOPS, 0, f"catch-all arm in VirtualOp::{name}")
+    for v, info in vs.items():
+        sp = spec.get(v)
+        u = isa.vec_positions(T["use_registers"][0][v][0]) if v in T["use_registers"][0] else None
+        d = isa.vec_positions(T["def_registers"][0][v][0]) if v in T["def_registers"][0] else None
+        if sp is None or u is None or d is None:
+            rep.ob("R2-isa-roles", f"VirtualOp::{v}", False, isa.VOPS, info["line"], f"{v}: operand roles not readable / not in spec/isa.txt")
+            continue
+        eff = v in T["has_side_effect"][0] and C08.lit_true(T["has_side_effect"][0][v][0])
+        rep.ob("R2-isa-roles", f"VirtualOp::{v}", sorted(d) == sorted(sp["d"]) and set(sp["u"]) <= set(u), isa.VOPS, info["line"],
+               f"{v}: def {d} / use {u} disagree with the VM's operand roles def {sp['d']} / use {sp['u']}: asm DCE and the propagators "
+               "kill or keep the wrong registers")
+        if sp["effect"] or (not d and v not in C08.NO_DEF_NO_EFFECT_OK):
+            rep.ob("R2-side-effect", f"VirtualOp::{v}", eff, isa.VOPS, info["line"],
+                   f"{v} has an effect beyond its def registers but has_side_effect() is not `true`: asm DCE deletes it when its result is dead")
+    rep.floor("R2-isa-roles", 100)
+
+
+# ---- R3: kill discipline of the register-contents trackers ---------------------------------------------------------------
+CIA = "sway-core/src/asm_generation/fuel/optimizations/const_indexed_aggregates.rs"
+
+
+def _calls_named(node, name):
+    return [n for k, nm, n in tab.calls(node) if k == "call" and tab.last_seg(nm) == name]
+
+
+def _arg_names(call):
+    out = []
+    for a in call.get("args", []):
+        while a.get("k") in ("Ref", "Paren"):
+            a = a["expr"]
+        out.append(a.get("path") if a.get("k") == "Path" else None)
+    return out
+
+
+def covers(node, dest, helpers):
+    """Every path through `node` records a new definition of `dest` (or drops the instruction)."""
+    k = node.get("k")
+    if k == "Block":
+        return any(covers(s, dest, helpers) for s in node.get("stmts", []))
+    if k in ("If", "IfLet"):
+        els = node.get("else")
+        return bool(els) and covers(node["then"], dest, helpers) and covers(els, dest, helpers)
+    if k == "Match":
+        return all(covers(a["body"], dest, helpers) for a in node["arms"])
+    if k == "Assign":
+        return node["left"].get("path") == "retain" and node["right"].get("v") is False
+    if k == "Call":
+        nm = tab.last_seg(node["func"].get("path", ""))
+        args = _arg_names(node)
+        if nm == "record_new_def":
+            return len(args) >= 2 and args[1] == dest
+        if nm in helpers:
+            params, body = helpers[nm]
+            if dest in args:
+                return covers(body, params[args.index(dest)], helpers)
+        return False
+    if k in ("For", "ForLoop"):
+        # `for def_reg in op.def_registers() { .. record_new_def(.., def_reg) }`
+        it = node.get("iter") or node.get("expr") or {}
+        if dest == "*defs" and any(nm == "def_registers" for kk, nm, _ in tab.calls(it)):
+            pat = node.get("pat", {})
+            return covers(node["body"], pat.get("name"), helpers)
+        return False
+    if k in ("Semi", "ExprStmt", "Paren", "Unsafe"):
+        return covers(node.get("expr", {}), dest, helpers) if node.get("expr") else False
+    if k == "Let":
+        return False
+    return False
+
+
+def reads_after_kill(block):
+    """(line) of a table read that follows record_new_def in the same statement list: the operand may be the register
+    whose version was just bumped."""
+    bad = []
+    for b in [n for n in tab.walk(block) if n.get("k") == "Block"]:
+        killed = False
+        for s in b.get("stmts", []):
+            if killed:
+                if _calls_named(s, "get_def_version") or any(nm == "get" and "reg_contents" in str(n.get("recv")) for k, nm, n in tab.calls(s) if k == "method"):
+                    bad.append(s.get("l", 0))
+            # a direct (unconditional) kill at this level
+            if s.get("k") in ("Call", "Semi", "ExprStmt") and _calls_named(s, "record_new_def") and not tab.find(s, "If") and not tab.matches_in(s):
+                killed = True
+    return bad
+
+
+def rule_kill_discipline(rep):
+    from lib import isa
+    import C08
+    t = tab.tree(CIA)
+    f = tab.fn(t, "const_indexing_aggregates_function")
+    spec = C08.load_isa()
+    vs = isa.variants(tab.tree(isa.VOPS))
+    helpers = {}
+    for h in tab.find(f["body"], "Fn"):
+        params = [(p.get("pat") or {}).get("name") for p in h.get("sig", {}).get("inputs", [])]
+        helpers[h["name"]] = (params, h["body"])
+    # the match over VirtualOp variants inside the retain_mut closure
+    rows, wild, m = isa.match_table(dict(body=f["body"], name=f["name"]), vs)
+    rep.ob("R3-tracker-dispatch-found", "const_indexing_aggregates_function", len(rows) >= 6 and len(wild) == 1, CIA, f.get("l", 0),
+           f"expected the VirtualOp dispatch with a default arm (found {len(rows)} variant arms, {len(wild)} default arms)")
+    for v, rs in rows.items():
+        sp = spec.get(v)
+        if not sp:
+            continue
+        for r in rs:
+            for pos in sp["d"]:
+                dest = r["binders"][pos]
+                if dest is None:
+                    rep.ob("R3-kill-on-every-def", f"{v}|operand{pos}", False, CIA, r["line"],
+                           f"the {v} arm does not bind the register it defines (operand {pos}): its new definition cannot be recorded")
+                    continue
+                ok = covers(r["arm"]["body"], dest, helpers)
+                rep.ob("R3-kill-on-every-def", f"{v}|{dest}", ok, CIA, r["line"],
+                       f"a path through the {v} arm keeps the instruction without record_new_def(.., {dest}): facts recorded about `{dest}` "
+                       "(or with it as base register) stay valid although it was overwritten, and a later LW/SW is rewritten through a stale base")
+    for a in wild:
+        rep.ob("R3-kill-on-every-def", "default-arm", covers(a["body"], "*defs", helpers), CIA, a.get("l", 0),
+               "the default arm must record a new definition for every register in op.def_registers()")
+    rep.floor("R3-kill-on-every-def", 6)
+    bad = reads_after_kill(f["body"])
+    rep.ob("R3-reads-before-kill", "const_indexing_aggregates_function", not bad, CIA, bad[0] if bad else f.get("l", 0),
+           "a version/contents lookup follows record_new_def in the same transfer function: when the destination is also an operand "
+           "(`addi r r K`) the lookup sees the new version and the stale fact `r = r + K` is recorded as valid")
+    # the validity test of a BaseOffset fact compares the recorded version with the *base register's* current version
+    n_cmp = 0
+    for n in tab.walk(f["body"]):
+        if n.get("k") == "Binary" and n.get("op") == "==":
+            sides = [n["left"], n["right"]]
+            g = [x for x in sides if x.get("k") == "Call" and tab.last_seg(x["func"].get("path", "")) == "get_def_version"]
+            fld = [x for x in sides if x.get("k") == "Field" and x.get("member") == "ver"]
+            if g or fld:
+                n_cmp += 1
+                ok = False
+                if g and fld:
+                    arg = g[0]["args"][1]
+                    while arg.get("k") in ("Ref", "Paren"):
+                        arg = arg["expr"]
+                    ok = arg.get("k") == "Field" and arg.get("member") == "reg" and \
+                        (arg["base"].get("path") == fld[0]["base"].get("path"))
+                rep.ob("R3-version-compared-with-its-register", f"cmp#{n_cmp}", ok, CIA, n.get("l", 0),
+                       "a recorded definition version `X.ver` must be compared with get_def_version(.., &X.reg) of the same X; comparing it "
+                       "with another register's version validates a fact about a register that has since been overwritten")
+    rep.floor("R3-version-compared-with-its-register", 3, n_cmp)
